@@ -2,8 +2,9 @@
 EXTENDS SignCrypt
 KeysQ == {1, -1}
 KeysT == {1, 2, -1}
-LensQ == {0, 1, 5, 31, 32, 33, 127, 128, 129, 65536}
-LensT == LensQ \cup {30, 40, 100, 140, 16383, 16384, 65535, 65536}
+\* 166 and 334: the framed payload (2-byte prefix + message) is exactly one / two SHAKE128 blocks of 168 bytes
+LensQ == {0, 1, 5, 31, 32, 127, 128, 166, 334, 65536}
+LensT == LensQ \cup {30, 33, 40, 62, 63, 100, 129, 140, 165, 167, 502, 16383, 16384, 65535, 65536}
 ModesAll == {"tamper", "threshold"}
 BigQ == {<<2, 255>>, <<3, 16>>, <<128, 255>>, <<255, 255>>}
 NoDev == {}
